@@ -1,7 +1,7 @@
 SPECIFICATION Spec
 CONSTANTS
-  MaxDepth = 7
-  Caps = {0, 1, 2, 3}
+  MaxDepth = 8
+  Caps = {0, 1, 2, 3, 4}
   MaxIdx = 6
 INVARIANT Refines
 INVARIANT AddNeverPanics
